@@ -275,6 +275,14 @@ def run_case(case, rec):
         for n, st in (("v2-pdb", st2p), ("v2-cif", st2c)):
             got_segs = sorted([tuple((str(r.chain_id), int(r.residue_number), r.insertion_code) for r in seg) for seg in st.connected_residues])
             rec.check("connectivity.segments", got_segs == sorted(want_segs), lambda: det({"reader": n, "got": got_segs[:4], "want": sorted(want_segs)[:4]}))
+    # a caller may reorder the atom list it was handed (the repository's own
+    # tests/test_v2.py sorts Residue.atoms_list in place by name before comparing):
+    # later atom look-ups of the table-level reader must not depend on that order
+    if int(core.chash(desc)[:2], 16) % 2 == 0:
+        for st in (st2p, st2c):
+            for r in st.residues:
+                r.atoms_list.sort(key=lambda a: str(a.name))
+        rec.count("note:atoms_list-sorted-in-place-before-torsions")
     # ---- |chi| -----------------------------------------------------------------
     chis = {}
     for n in ("v1-pdb", "v1-cif"):
